@@ -2,6 +2,7 @@ import StorageModel.C04.Exact
 import StorageModel.C04.SpecProofs
 import StorageModel.C04.OldRoute
 import StorageModel.C04.MarksProofs
+import StorageModel.C04.TierProofs
 /-
   C04 — Foreign keys: targets exist, back-references exact, delete restricts or cascades.
 
@@ -671,5 +672,94 @@ example : referrersViaFilter (runHistory σ0 hist0).as symBoss idR = some [idZ, 
     referrers (runHistory σ0 hist0) (·.boss) idR = [[97, 34, 98], idR, idZ] := by decide
 
 end Examples
+
+/-! ## Round 9 — a chain of three stores (owners <- items <- notes), an fk constraint on each link, every combination
+    of restrict / cascade and nullable / not (`C04/Tier.lean`): a cascade that starts at an owner reaches items
+    which the lower link may protect.  All statements: every schema, every state (no invariant needed for the
+    delete statements), every id. -/
+section Chain
+
+/-- **restrict holds inside a cascade**: an item that a note refers to through a RESTRICT link is never removed
+    by deleting its owner — whatever the upper link does (restrict: refused because of the item; cascade: the
+    nested delete of the item is refused and with it the whole delete) the outcome is reference-exists.
+    (The class of seeded C04-16.) -/
+theorem restrict_inside_cascade_refuses (σ : TSchema) (s : TSt) (o i n : Bytes)
+    (ho : s.t0.contains o = true) (hi : tIsRef s.t1 o i = true) (hn : tIsRef s.t2 i n = true)
+    (hrestrict : σ.casc2 = false) :
+    tDelete0 σ s o = .error .refExists := by
+  have h := tDelete0_char σ s o
+  cases hres : tDelete0 σ s o with
+  | ok s' =>
+    rw [hres] at h
+    have := h.2.2.1 hrestrict i hi
+    rw [(tReferred_iff _ _).2 ⟨n, hn⟩] at this; cases this
+  | error e =>
+    rw [hres] at h
+    rcases h with ⟨_, hc⟩ | ⟨he, _⟩
+    · rw [ho] at hc; cases hc
+    · rw [he]
+
+/-- non-vacuity: owner o, items i1 i2 under it, a note on i2; cascade over restrict -/
+example : (match tDelete0 ⟨true, false, false, false⟩
+    { t0 := [([111], ())], t1 := [([1], some [111]), ([2], some [111])], t2 := [([9], some [2])] } [111] with
+    | .error .refExists => true
+    | _ => false) = true := by decide
+
+/-- **delete of an owner: refused or exactly the cascade.**  `DeleteById` on the top store either fails — not-found
+    for a missing id, otherwise reference-exists, and then for a reason: the upper link restricts and an item
+    refers to the owner, or it cascades and a note refers through a restrict link to an item of the removal set —
+    or succeeds, and then: no restrict link had a referrer into the removal set, the owner, exactly the items
+    referring to it and exactly the notes referring to those are gone, every other row is unchanged. -/
+theorem chain_delete_refused_or_exact (σ : TSchema) (s : TSt) (id : Bytes) :
+    match tDelete0 σ s id with
+    | .ok s' => s.t0.contains id = true ∧ (σ.casc1 = false → tReferred s.t1 id = false) ∧
+        (σ.casc2 = false → ∀ i, tIsRef s.t1 id i = true → tReferred s.t2 i = false) ∧
+        (∀ y, s'.t0.lookup y = if y = id then none else s.t0.lookup y) ∧
+        (∀ y, s'.t1.lookup y = if tIsRef s.t1 id y = true then none else s.t1.lookup y) ∧
+        (∀ n, ((∃ i, tIsRef s.t1 id i = true ∧ tIsRef s.t2 i n = true) → s'.t2.lookup n = none) ∧
+              ((¬ ∃ i, tIsRef s.t1 id i = true ∧ tIsRef s.t2 i n = true) → s'.t2.lookup n = s.t2.lookup n))
+    | .error e => (e = .notFound ∧ s.t0.contains id = false) ∨
+        (e = .refExists ∧ s.t0.contains id = true ∧
+          ((σ.casc1 = false ∧ tReferred s.t1 id = true) ∨
+           (σ.casc1 = true ∧ σ.casc2 = false ∧ ∃ i, tIsRef s.t1 id i = true ∧ tReferred s.t2 i = true))) :=
+  tDelete0_char σ s id
+
+/-- the same one level down: `DeleteById` on the middle store -/
+theorem chain_delete_item_refused_or_exact (σ : TSchema) (s : TSt) (id : Bytes) :
+    match tDelete1 σ s id with
+    | .ok s' => s.t1.contains id = true ∧ (σ.casc2 = false → tReferred s.t2 id = false) ∧ s'.t0 = s.t0 ∧
+        (∀ y, s'.t1.lookup y = if y = id then none else s.t1.lookup y) ∧
+        (∀ y, s'.t2.lookup y = if tIsRef s.t2 id y = true then none else s.t2.lookup y)
+    | .error e => (e = .notFound ∧ s.t1.contains id = false) ∨
+        (e = .refExists ∧ s.t1.contains id = true ∧ σ.casc2 = false ∧ tReferred s.t2 id = true) :=
+  tDelete1_char σ s id
+
+/-- **targets exist along the chain**: after any history of transactions (failed ones rolled back) every stored
+    reference of an item names an existing owner and every stored reference of a note names an existing item — or
+    is null / empty on a nullable link; in particular no delete, refused or cascading, leaves a dangling reference -/
+theorem chain_targets_exist (σ : TSchema) (txs : List (List TOp)) : TInv σ (tRunHistory σ txs) :=
+  tInv_history σ txs
+
+/-- per operation, from any state satisfying the invariant -/
+theorem chain_targets_exist_step (σ : TSchema) (s s' : TSt) (op : TOp) (hi : TInv σ s)
+    (h : tApply σ s op = .ok s') : TInv σ s' :=
+  tInv_apply σ s s' op hi h
+
+/-- non-vacuity of the hypothesis `TInv` -/
+example : TInv ⟨true, false, false, false⟩ { t0 := [([111], ())], t1 := [([1], some [111])], t2 := [] } := by
+  refine ⟨fun x v hx => ?_, fun x v hx => by simp [Map.lookup] at hx⟩
+  simp only [Map.lookup] at hx
+  split at hx
+  · cases hx; exact ⟨fun _ => by decide, fun h => by simp [evalVal] at h⟩
+  · cases hx
+
+/-- **the run-time oracle says what the model does**: the executable specification of the owner delete used by
+    the check (set comprehensions over the three tables: no loop, no nesting) agrees with the model of the code on
+    every schema, state and id — same error, or states with the same rows -/
+theorem chain_spec_agrees (σ : TSchema) (s : TSt) (id : Bytes) :
+    TRes.Agree (tDelete0 σ s id) (specDelete0 σ s id) :=
+  tDelete0_agrees_spec σ s id
+
+end Chain
 
 end StorageModel.Properties.C04
